@@ -539,25 +539,28 @@ String File::getRelativePath(const String& from, const String& to)
   String simTo = simplifyPath(to);
   if(simFrom == simTo)
     return String(".");
-  simFrom.append('/');
-  if(String::compare((const char*)simTo, (const char*)simFrom, simFrom.length()) == 0)
-    return String((const char*)simTo + simFrom.length(), simTo.length() - simFrom.length());
-  String result("../");
-  while(simFrom.length() > 0)
+  if(isAbsolutePath(from) != isAbsolutePath(to))
+    return String();
+  // compare whole components: both paths end with '/', the empty path is the common root of relative paths
+  if(!simFrom.isEmpty() && !simFrom.endsWith("/"))
+    simFrom.append('/');
+  if(!simTo.isEmpty() && !simTo.endsWith("/"))
+    simTo.append('/');
+  String result;
+  while(!simTo.startsWith(simFrom))
   {
     simFrom.resize(simFrom.length() - 1);
     const char* newEnd = simFrom.findLast('/');
-    if(!newEnd)
-      break;
-    simFrom.resize((newEnd - (const char*)simFrom) + 1);
-    if(String::compare((const char*)simTo, (const char*)simFrom, simFrom.length()) == 0)
-    {
-      result.append(String((const char*)simTo + simFrom.length(), simTo.length() - simFrom.length()));
-      return result;
-    }
+    usize parentLen = newEnd ? (usize)(newEnd - (const char*)simFrom) + 1 : 0;
+    if(String::compare((const char*)simFrom + parentLen, "..") == 0)
+      return String(); // the name of the directory above is not known
+    simFrom.resize(parentLen);
     result.append("../");
   }
-  return String();
+  result.append((const char*)simTo + simFrom.length(), simTo.length() - simFrom.length());
+  if(!result.isEmpty())
+    result.resize(result.length() - 1);
+  return result;
 }
 
 String File::getAbsolutePath(const String& path)
